@@ -825,6 +825,8 @@ class Interp:
         if isinstance(base, LibRef):
             if attr == 'pi' and base.dotted in ('np', 'numpy', 'math'):
                 return self.unit.pi(self.ctx)
+            if attr == 'newaxis' and base.dotted in ('np', 'numpy'):
+                return None
             return LibRef(base.dotted + '.' + attr)
         if isinstance(base, STensor):
             return self.unit.np.tensor_attr(self, base, attr, line)
